@@ -154,6 +154,8 @@ type c01Result struct {
 	remoteAddr   string
 	faults       []string
 	elapsed      time.Duration
+	lastProgress int64 // UnixNano of the last moment either end read payload bytes of this session (atomic)
+	endedAt      time.Time
 }
 
 func c01GenFault(rng *rand.Rand, first bool) c01Fault {
@@ -341,6 +343,7 @@ func c01Client(serverAddr string, res *c01Result, seed int64, maxFaults int, dea
 					res.clientErr = fmt.Sprintf("downstream: %d bytes beyond the %d written", off+n-res.downLen, res.downLen)
 					return
 				}
+				atomic.StoreInt64(&res.lastProgress, time.Now().UnixNano())
 				c01Fill(want[:n], res.session, 'd', off)
 				for i := 0; i < n; i++ {
 					if buf[i] != want[i] {
@@ -407,6 +410,7 @@ func c01Serve(conn net.Conn, results *sync.Map, deadline time.Time) {
 					res.serverErr = fmt.Sprintf("upstream: %d bytes beyond the %d written", off+n-upLen, upLen)
 					return
 				}
+				atomic.StoreInt64(&res.lastProgress, time.Now().UnixNano())
 				c01Fill(want[:n], session, 'u', off)
 				for i := 0; i < n; i++ {
 					if buf[i] != want[i] {
@@ -545,6 +549,7 @@ func c01Stack(t *testing.T, prop string) {
 			t0 := time.Now()
 			c01Client(addr.String(), res, seed, maxFaults, deadline)
 			res.elapsed = time.Since(t0)
+			res.endedAt = time.Now()
 		}(res, rng.Int63())
 	}
 	wg.Wait()
@@ -573,6 +578,10 @@ func c01Stack(t *testing.T, prop string) {
 
 	c01PeersReplacement(r)
 
+	quiet := budget / 2
+	if quiet > 75*time.Second {
+		quiet = 75 * time.Second
+	}
 	for _, res := range all {
 		desc := fmt.Sprintf("session %d up %d down %d carriers %d faults [%s]", res.session, res.upLen, res.downLen, res.carriers, strings.Join(res.faults, " "))
 		class := "session"
@@ -597,6 +606,12 @@ func c01Stack(t *testing.T, prop string) {
 		case (res.clientErr != "" || res.serverErr != "" || !res.serverDone) && !timedOut:
 			r.OracleFail("stream-ended-early", desc, "client: "+res.clientErr+" | server: "+res.serverErr,
 				"with a working carrier eventually available the stream must complete; it ended although carriers kept being provided")
+		case timedOut && (res.clientErr != "" || !res.serverDone) && res.endedAt.Sub(time.Unix(0, atomic.LoadInt64(&res.lastProgress))) < quiet:
+			// out of time, but payload bytes were still arriving not long before the end: the stream was slow, not
+			// stalled for good - no verdict from this session. (kcp-go doubles a segment's retransmission timeout at
+			// every loss, up to 60 s; after 15 carriers cut in a row a stream can stand still for most of a minute
+			// and then go on. A session that moved nothing for `quiet` - longer than that - is a stall.)
+			r.Note("session not finished within the budget but still making progress (no verdict): %s | client: %s | server: %s", desc, res.clientErr, res.serverErr)
 		case timedOut && (res.clientErr != "" || !res.serverDone):
 			// every session is given fault-free carriers after its generated faults, and an unfaulted
 			// session takes a few seconds: not finishing within the budget (>= 20x that) means the stream
